@@ -2,7 +2,7 @@
 import re
 
 from .lib import (ITER_PLUMBING, PLUMBING, callee_allow, callers, closure_args_of_call, element_sources, lit_strs, operand_local)
-from .lib_c12 import (STATUS_PATH, Origin, agg_field_op, coded_impls, const_bool_operand, const_val, eval_bool_paths, from_impls, norm_ty, op_const_path,
+from .lib_c12 import (STATUS_PATH, TO_STRING, Origin, agg_field_op, coded_impls, const_bool_operand, const_val, direct_element_sources, eval_bool_paths, field_sources, from_impls, norm_ty, op_const_path,
                       only_plumbing, params_of_type, ret_ok_sites, self_of_call)
 
 LEVEL = "other"
@@ -201,11 +201,12 @@ def _arm_map(f, sbb, target_adt):
     for v, n in info["variants"].items():
         targets[n] = f.switch_target(sbb, v)
     for n, tb in targets.items():
+        # an arm = what is reachable from its target without coming back to the switch (a match inside a loop body), minus what the other arms reach too
         others = set()
         for m, ob in targets.items():
             if ob != tb:
-                others |= f.reachable(ob)
-        mine = f.reachable(tb) - others
+                others |= f.reachable(ob, avoid=[sbb])
+        mine = f.reachable(tb, avoid=[sbb]) - others
         if tb == t["otherwise"] and any(ob == tb for m, ob in targets.items() if m != n):
             out[n] = None  # shares the fall-through arm with another variant
             continue
@@ -310,8 +311,10 @@ def r2_location(ctx):
               "ParameterMetadata -> openapiv3::Parameter: %s (Body parameters are not listed as parameters)" % table, pc)
     # the parameter name in the document is the metadata's name
     for b, i, st in pc.aggregates(r"^openapiv3::ParameterData$"):
-        sl = pc.slice(agg_field_op(st, "name"))
-        ctx.check(R, "gen_openapi:parameter-name", sl.reads_field("metadata") and only_plumbing(sl), "ParameterData.name derives from param.metadata: callees %s" % sl.callee_names(), (pc, b))
+        sl = pc.slice(agg_field_op(st, "name"), stop_at_calls=r"iter::Iterator::next$")
+        e_ok, e_why, _ = _element_of(ds, pc, agg_field_op(st, "name"), ("field", "parameters"))
+        ctx.check(R, "gen_openapi:parameter-name", sl.reads_field("metadata") and only_plumbing(sl, [r"iter::Iterator::next$"]) and e_ok,
+                  "ParameterData.name derives from param.metadata of an %s: callees %s" % (e_why, sl.callee_names()), (pc, b))
 
 
 # ----------------------------------------------------------------------------- R3
@@ -341,27 +344,40 @@ def _mime_tables(ctx, R):
                             if o.get("val") and "str" in o["val"]:
                                 vals.add(o["val"]["str"])
             to_str[n] = vals
+    # from_mime_type as a table literal -> variant, read off the path facts: a variant built on a path on which exactly the comparison with
+    # literal L came out true is the image of L — whether the comparisons are match arms, an if / else-if chain, early returns or named flags
     from_str = {}
     other_outcomes = []
+    lit_of = {}
     for bb, t in fm.live_calls(r"cmp::PartialEq::eq$"):
-        lit = None
+        lits = set()
         for a in t["args"]:
             if a.get("k") == "const":
                 if a.get("tyconst"):
-                    lit = a["tyconst"].strip('"')
+                    lits.add(a["tyconst"].strip('"'))
                 elif a.get("val") and "str" in a["val"]:
-                    lit = a["val"]["str"]
-        sws = [(sbb, st) for sbb, st in fm.switches() if operand_local(st["discr"]) == t["dest"]["l"]]
-        if lit is None or len(sws) != 1:
+                    lits.add(a["val"]["str"])
+            else:
+                lits |= lit_strs(fm.slice(a))
+        if len(lits) != 1:
             other_outcomes.append(bb)
             continue
-        tb, fb = fm.bool_edges(sws[0][0])
-        mine = fm.reachable(tb) - fm.reachable(fb)
-        vs = set()
-        for b, i, st in fm.aggregates("^" + re.escape(CT) + "$"):
-            if b in mine:
-                vs.add(st["rv"]["variant"])
-        from_str[lit] = vs
+        lit_of[("call", bb)] = lits.pop()
+        from_str.setdefault(lit_of[("call", bb)], set())
+    reach = fm.reachable(0)
+    for b, i, st in fm.aggregates("^" + re.escape(CT) + "$"):
+        if b not in reach:
+            continue
+        states = fm.bool_states_at(b)
+        if states is None:
+            other_outcomes.append(b)
+            continue
+        for fs in states:
+            trues = [a for a, v in fs.items() if v and a in lit_of]
+            if not trues:
+                other_outcomes.append(b)     # a content type produced without any literal having matched
+            for a in trues:
+                from_str[lit_of[a]].add(st["rv"]["variant"])
     return mt, fm, to_str, from_str, other_outcomes
 
 
@@ -377,10 +393,17 @@ def r3_content_type(ctx):
         if len(fms) != 1:
             continue
         fbb, ft = fms[0]
-        cparam = f.local_by_name("content_type")
+        # the parsed string is one of the constructor's own &str arguments, unmodified — and not the one stored as the endpoint's path
         sl = f.slice(ft["args"][0])
-        ctx.check(R, "%s:parses-the-declared-content-type" % tag, bool(cparam) and sl.params() == cparam and only_plumbing(sl),
-                  "from_mime_type argument derives from params %s (content_type is %s) via %s" % (sl.params(), cparam, sl.callee_names()), (f, fbb))
+        strs = [i for i in range(1, f.argc + 1) if re.match(r"^&(\S+ )?str$", f.local_ty(i) or "")]
+        path_params = []
+        for b, i, st in f.aggregates(r"^api_description::ApiEndpoint$"):
+            pop = agg_field_op(st, "path")
+            path_params += f.slice(pop).params() if pop else []
+        computed = [a for a in sl.atoms if a[0] in ("lit", "const", "binop", "unop")]
+        okp = len(sl.params()) == 1 and sl.params()[0] in strs and sl.params()[0] not in path_params and only_plumbing(sl) and not computed
+        ctx.check(R, "%s:parses-the-declared-content-type" % tag, okp,
+                  "from_mime_type argument derives from params %s (&str params %s; the path is param %s) via %s" % (sl.params(), strs, sorted(set(path_params)), sl.callee_names()), (f, fbb))
         allow = PLUMBING + [r"ApiEndpointBodyContentType::from_mime_type$", r"Result::<T, E>::expect$", r"Result::<T, E>::unwrap$"]
         for bb, t in f.live_calls(r"extractor::common::RequestExtractor::metadata$"):
             ms = f.slice(t["args"][0])
@@ -426,9 +449,10 @@ def r3_content_type(ctx):
         ins = [(bb, t) for bb, t in g.live_calls(r"IndexMap::<K, V, S>::insert$") if any(a[0] == "agg" and a[1] == "openapiv3::MediaType" for a in g.slice(t["args"][2]).atoms)]
         ok = False
         for bb, t in ins:
-            ks = g.slice(t["args"][1])
-            ok = ks.has_call(r"ApiEndpointBodyContentType::mime_type$") and ks.reads_field("metadata") and not lit_strs(ks) and \
-                only_plumbing(ks, [r"ApiEndpointBodyContentType::mime_type$", r"string::ToString::to_string$", r"borrow::ToOwned::to_owned$"])
+            ks = g.slice(t["args"][1], stop_at_calls=r"iter::Iterator::next$")
+            e_ok, e_why, _ = _element_of(ds, g, t["args"][1], ("field", "parameters"))
+            ok = ks.has_call(r"ApiEndpointBodyContentType::mime_type$") and ks.reads_field("metadata") and not lit_strs(ks) and e_ok and \
+                only_plumbing(ks, [r"ApiEndpointBodyContentType::mime_type$", r"iter::Iterator::next$"] + TO_STRING)
         ctx.check(R, "gen_openapi:request-media-type-key", len(ins) == 1 and ok, "requestBody.content key = param.metadata's content type .mime_type(): %s" % ok, g)
     # inverse tables
     mt, fm, to_str, from_str, odd = _mime_tables(ctx, R)
@@ -447,21 +471,22 @@ def r3_content_type(ctx):
     lb = ctx.need_fn(ds, R, r"^extractor::body::http_request_load_body$")
     body = ds.body_of(lb)
     CT = "api_description::ApiEndpointBodyContentType"
-    pairs = []
+    # every switch on a content-type value is classified by the *role* of the value it tests: the endpoint's expected content type
+    # (rqctx.endpoint.body_content_type) or the requested one (from_mime_type of the request header) — whether they are matched as
+    # a tuple, in nested matches or one after the other
+    roles = {"expected": [], "requested": []}
     for sbb in _discr_switches(body, CT):
         info = body.switch_on(sbb)
-        pairs.append((sbb, info))
-    tuple_local = None
-    for sbb, info in pairs:
-        tuple_local = info["place"]["l"]
-    exp_ok = req_ok = False
-    if tuple_local is not None:
-        e = body.slice({"l": tuple_local, "p": [{"f": 0}]})
-        r_ = body.slice({"l": tuple_local, "p": [{"f": 1}]})
-        exp_ok = e.reads_field("body_content_type") and e.reads_field("endpoint") and only_plumbing(e) and not e.has_call(r"from_mime_type$")
-        req_ok = r_.has_call(r"from_mime_type$") and r_.has_call(r"HeaderMap::<T>::get$") and not r_.reads_field("body_content_type")
-    ctx.check(R, "load_body:compares-expected-with-requested", exp_ok and req_ok,
-              "match scrutinee = (rqctx.endpoint.body_content_type=%s, from_mime_type(request header)=%s)" % (exp_ok, req_ok), body)
+        vs = body.slice(info["place"])
+        is_exp = vs.reads_field("body_content_type") and vs.reads_field("endpoint") and only_plumbing(vs) and not vs.has_call(r"from_mime_type$")
+        is_req = vs.has_call(r"from_mime_type$") and vs.has_call(r"HeaderMap::<T>::get$") and not vs.reads_field("body_content_type")
+        if is_exp:
+            roles["expected"].append((sbb, info))
+        elif is_req:
+            roles["requested"].append((sbb, info))
+    ctx.check(R, "load_body:compares-expected-with-requested", bool(roles["expected"]) and bool(roles["requested"]),
+              "the body loader branches on rqctx.endpoint.body_content_type (%d switch(es)) and on from_mime_type(request header) (%d switch(es))" % (
+                  len(roles["expected"]), len(roles["requested"])), body)
     for pat, want in ((r"^serde_json::Deserializer::<.*>::from_(slice|str)$|^serde_json::from_(slice|str)$", "Json"),
                       (r"^serde_urlencoded::Deserializer::<'de>::new$|^serde_urlencoded::from_(bytes|str)$", "UrlEncoded")):
         sites = body.live_calls(pat)
@@ -469,17 +494,15 @@ def r3_content_type(ctx):
             ctx.lost(R, "%s deserialiser in http_request_load_body" % want)
             continue
         for bb, t in sites:
-            seen = {0: set(), 1: set()}
-            for sbb, info in pairs:
-                fidx = [e_["f"] for e_ in info["place"]["p"] if isinstance(e_, dict) and "f" in e_][:1]
-                if not fidx:
-                    continue
-                for v, n in info["variants"].items():
-                    tb = body.switch_target(sbb, v)
-                    if tb != body.blocks[sbb]["term"]["otherwise"] and body.edge_dominates(sbb, tb, bb):
-                        seen[fidx[0]].add(n)
-            ctx.check(R, "load_body:%s-deserialiser-guard" % want, seen[0] == {want} and seen[1] == {want},
-                      "deserialiser reached only when expected is %s and requested is %s (want %s/%s)" % (sorted(seen[0]), sorted(seen[1]), want, want), (body, bb))
+            seen = {"expected": set(), "requested": set()}
+            for role, sws in roles.items():
+                for sbb, info in sws:
+                    for v, n in info["variants"].items():
+                        tb = body.switch_target(sbb, v)
+                        if tb != body.blocks[sbb]["term"]["otherwise"] and body.edge_dominates(sbb, tb, bb):
+                            seen[role].add(n)
+            ctx.check(R, "load_body:%s-deserialiser-guard" % want, seen["expected"] == {want} and seen["requested"] == {want},
+                      "deserialiser reached only when expected is %s and requested is %s (want %s/%s)" % (sorted(seen["expected"]), sorted(seen["requested"]), want, want), (body, bb))
 
 
 # ----------------------------------------------------------------------------- R4
@@ -489,18 +512,24 @@ def r4_response(ctx):
     ds = ctx.ds
     rm = ctx.need_fn(ds, R, r"^<T as handler::HttpResponse>::response_metadata$")
     fo = ctx.need_fn(ds, R, r"^handler::HttpCodedResponse::for_object$")
-    aggs = [(b, st) for b, i, st in rm.aggregates(r"^api_description::ApiEndpointResponse$") if st["pl"]["l"] == 0]
-    if len(aggs) != 1:
-        ctx.lost(R, "ApiEndpointResponse aggregate in response_metadata")
+    # the returned ApiEndpointResponse, however it is put together (struct literal, let-bound literal, field assignments on a default value)
+    RESP = r"^api_description::ApiEndpointResponse$"
+    succ_ops, succ_complete = field_sources(rm, 0, "success", RESP)
+    schema_ops, schema_complete = field_sources(rm, 0, "schema", RESP)
+    if not succ_ops or not schema_ops:
+        ctx.lost(R, "the `success` / `schema` fields of the ApiEndpointResponse returned by response_metadata")
         return
-    b, st = aggs[0]
-    ss = rm.slice(agg_field_op(st, "success"))
-    doc_status = ss.has_const_path(STATUS_PATH) and not ss.callees and any(a[0] == "agg" and a[2] == "Some" for a in ss.atoms)
+    b = 0
+    doc_status = succ_complete
+    for o in succ_ops:
+        ss = rm.slice(o)
+        doc_status = doc_status and ss.has_const_path(STATUS_PATH) and not ss.callees and any(a[0] == "agg" and a[2] == "Some" for a in ss.atoms)
     run = fo.live_calls(r"http::response::Builder::status$")
     run_status = len(run) == 1 and bool(re.search(STATUS_PATH, op_const_path(fo, run[0][1]["args"][1]) or ""))
     ctx.check(R, "status:same-constant", doc_status and run_status, "document: success = Some(T::STATUS_CODE)=%s; runtime: for_object status(Self::STATUS_CODE)=%s" % (doc_status, run_status), (rm, b))
-    cs = rm.slice(agg_field_op(st, "schema"))
+    cs = rm.slice(schema_ops[0])
     cm = cs.calls(r"handler::HttpResponseContent::content_metadata$")
+    same_everywhere = schema_complete and all([bb_ for c_, bb_, t_ in rm.slice(o).calls(r"content_metadata$")] == [bb_ for c_, bb_, t_ in cm] and only_plumbing(rm.slice(o), [r"content_metadata$"]) for o in schema_ops)
     tr = [(bb, t) for bb, t in fo.live_calls() if (t.get("callee") or "").endswith("handler::HttpResponseContent::to_response")]
 
     def body_proj(t):
@@ -509,7 +538,7 @@ def r4_response(ctx):
         return m.group(1) if m else None
     dproj = body_proj(cm[0][2]) if len(cm) == 1 else None
     rproj = body_proj(tr[0][1]) if len(tr) == 1 else None
-    ctx.check(R, "schema:same-body-type", dproj == "T" and rproj == "Self" and only_plumbing(cs, [r"content_metadata$"]),
+    ctx.check(R, "schema:same-body-type", dproj == "T" and rproj == "Self" and only_plumbing(cs, [r"content_metadata$"]) and same_everywhere,
               "document: schema = <%s::Body>::content_metadata(); runtime: <%s::Body>::to_response()" % (dproj, rproj), (rm, b))
     # blanket JSON impl: schema generated for the serialised type itself
     jc = ctx.need_fn(ds, R, r"^<T as handler::HttpResponseContent>::content_metadata$")
@@ -658,7 +687,7 @@ def _element_of(ds, g, op, producer, allow=()):
     closure's item parameter).  Returns (ok, detail, [(ctx fn, iterator Origin)]).
     producer: ("call", regex) — the iterated collection is the result of that call;
               ("field", name) — the iterated collection is field `name` of some object."""
-    srcs = element_sources(ds, g, op)
+    srcs = direct_element_sources(ds, g, op)
     if not srcs:
         return False, "the value is not an element of an iterated collection", []
     its = []
